@@ -7,15 +7,49 @@
 #[macro_use]
 pub mod engine;
 pub mod gen;
+pub mod keys;
+pub mod der;
+pub mod iset;
+pub mod rtrsim;
+pub mod c01;
+pub mod c02;
+pub mod c03;
+pub mod c04;
+pub mod c05;
+pub mod c06;
+pub mod c07;
+pub mod c08;
+pub mod c09;
+pub mod c10;
+pub mod c11;
+pub mod c12;
 pub mod c13;
+pub mod c14;
+pub mod c15;
 pub mod c16;
+pub mod c17;
 
 use engine::{Property, Tier};
 
 fn properties() -> Vec<fn() -> Property> {
     vec![
+        c01::property,
+        c02::property,
+        c03::property,
+        c04::property,
+        c05::property,
+        c06::property,
+        c07::property,
+        c08::property,
+        c09::property,
+        c10::property,
+        c11::property,
+        c12::property,
         c13::property,
+        c14::property,
+        c15::property,
         c16::property,
+        c17::property,
     ]
 }
 
@@ -27,6 +61,10 @@ fn main() {
             let p = p();
             println!("{} {}", p.id, p.subs.iter().map(|s| s.name()).collect::<Vec<_>>().join(","));
         }
+        return;
+    }
+    if args.first().map(|s| s.as_str()) == Some("selftest") {
+        selftest();
         return;
     }
     if args.len() < 2 {
@@ -53,4 +91,22 @@ fn main() {
         }
     };
     std::process::exit(out.exit);
+}
+
+/// Sanity checks of the harness' own trusted parts (key pool, raw verifier).
+fn selftest() {
+    use rpki::crypto::{RpkiSignatureAlgorithm, Signer};
+    let signer = keys::PoolSigner::new();
+    for i in 0..keys::POOL_SIZE {
+        let k = signer.key(i);
+        let info = signer.get_key_info(&k).unwrap();
+        let sig = signer.sign(&k, RpkiSignatureAlgorithm::default(), b"selftest").unwrap();
+        info.verify(b"selftest", &sig).expect("library verifies pool signature");
+        assert!(keys::raw_verify(i, b"selftest", sig.value()));
+        assert!(!keys::raw_verify(i, b"selftesu", sig.value()));
+        assert!(!keys::raw_verify((i + 1) % keys::POOL_SIZE, b"selftest", sig.value()));
+        assert_eq!(keys::key_id_of_spki(&keys::pool().spki[i]).unwrap().as_slice(), info.key_identifier().as_slice());
+    }
+    assert!(keys::ec_key(0).allow_router_cert());
+    println!("selftest ok");
 }
